@@ -24,7 +24,10 @@ CFG = dict(
          "its real pre-consensus phase and a real decided message, then receives a shuffled sequence of partial-signature messages: correct shares, "
          "replays, and <= f (8% of cases: more) faulty members sending wrong-key / wrong-root-signed / zero / non-point / infinity shares on all or some "
          "roots, replaced shares, permuted roots, wrong slot, inconsistent inner signer, wrong root count, unexpected or duplicate roots, signer 0, "
-         "non-member; messages before the decision; late traffic after Finished. Systematic block: n=4, one faulty member, EVERY arrival order "
+         "non-member; messages before the decision; late traffic after Finished; in 35% of the cases two or three CONSECUTIVE duties on the same runner object "
+         "(same epoch, next epoch, two epochs later; a passed slot is refused), each with its own traffic, so that anything cached across duties "
+         "shows; every Submit* signature is verified over EXACTLY the object handed to the beacon mock and that object must belong to the current duty; "
+         "an implementation-side probe runs the voluntary-exit runner with a failing own broadcast. Systematic block: n=4, one faulty member, EVERY arrival order "
          "(5! orders x 6 duty/bad-root configurations). A case class is distinct per (runner, n, outcome, share-quality class, #entries).",
     trusted_base=["threshold BLS: Lagrange recovery over the stored shares followed by verification under the validator key succeeds iff every stored share "
                   "is correct and there are at least Share.Quorum of them (exercised with real BLS by the differential run; cancelling wrong shares are not generated)",
